@@ -144,7 +144,7 @@ let handle l =
       let rec split i acc l = if i = 0 then (List.rev acc, l) else (match l with x :: t -> split (i - 1) (x :: acc) t | [] -> failwith "core4shape") in
       let (pairs, doc) = split n [] rest in
       let d = dec_doc (make_reader doc) in
-      (if is_core4 d then "" else "X") ^ string_of_int (int_of_n (core4_shape_tbl (parse_cls cls) d (List.map parse_pair pairs)))
+      (if in_core4_domain d then "D" else if is_core4 d then "" else "X") ^ string_of_int (int_of_n (core4_shape_tbl (parse_cls cls) d (List.map parse_pair pairs)))
   | "core3shape" :: cls :: np :: rest ->
       let n = int_of_string np in
       let rec split i acc l = if i = 0 then (List.rev acc, l) else (match l with x :: t -> split (i - 1) (x :: acc) t | [] -> failwith "core3shape") in
